@@ -3,35 +3,74 @@ import ScryerModel.Proofs.OpTable
 # C43 — op/3 and current_op/3 maintain a consistent operator table
 
 Model: `Model/OpTable.lean`. `opStep t c` is `builtins.pl::op/3` clause by clause (validation in the
-order of the code, `'$op'/3` = `op_declaration`/`OpDecl::submit`/`OpDecl::remove`) with the two
-patches of findings C43-1 and C43-2 applied; `opStepImpl asIs` is the code as it is. `lookup t n c`
-is the visible operator table (priority-0 bookkeeping cells hidden), `currentOp t` what
-`current_op(P,T,N)` enumerates, `IsoErr t c e` the ISO 8.14.3.3 (+Cor.2) condition of error `e`.
+order of the code, `'$op'/3` = `op_declaration`/`OpDecl::submit`/`OpDecl::remove`) with the patch of
+finding C43-1 applied; `opStepImpl asIs` is the code as it is. `lookup t n c` is the visible operator
+table (priority-0 bookkeeping cells hidden), `currentOp t` what `current_op(P,T,N)` enumerates,
+`currentOpQ true` the instantiation modes of `current_op/3` with the patch of finding C43-2,
+`IsoErr t c e` the ISO 8.14.3.3 (+Cor.2) condition of error `e`.
+
+"A rejected call leaves the table unchanged": ISO 8.14.3.1 excepts one event — "in the event of an
+error being detected in an Operator list argument, it is undefined which, if any, of the atoms in
+the list is made an operator". The code (and `opStep`) makes the elements in front of the first
+clashing one operators; `PrefixMade` describes exactly that event. `opStepAtomic` is the
+all-or-nothing variant, for which the sentence holds without exception.
 All theorems are for every table / every history of calls (`runOps`), with no bound on length.
 -/
 namespace Scryer.OpTable
 
-/-- A rejected call leaves the table unchanged and raises an error whose ISO condition holds. -/
+/-- A rejected call raises an error whose ISO condition holds, and leaves the table unchanged —
+    except in the event ISO 8.14.3.1 leaves undefined (a list whose later element clashes), where
+    exactly the elements in front of the offending one have been made operators. -/
 theorem C43_rejected (t : Table) (c : Call) (e : Err) (h : (opStep t c).2 = some e) :
-    (opStep t c).1 = t ∧ IsoErr t c e := by
-  rcases opStep_spec t c with ⟨e', hr, hi⟩ | ⟨p, s, ns, _, hr⟩
+    IsoErr t c e ∧ ((opStep t c).1 = t ∨ PrefixMade t c e (opStep t c).1) := by
+  rcases opStep_spec t c with (⟨e', hr, hi⟩ | ⟨p, s, ns, _, hr⟩) | ⟨e', he, hi, hpm⟩
   · rw [hr] at h ⊢
     cases h
-    exact ⟨rfl, hi⟩
+    exact ⟨hi, .inl rfl⟩
   · rw [hr] at h; cases h
+  · rw [he] at h
+    cases h
+    exact ⟨hi, .inr hpm⟩
+
+/-- A rejected call leaves the table unchanged whenever the third argument is not a list, or the
+    error is anything but `permission_error(create, operator, _)`. -/
+theorem C43_rejected_unchanged (t : Table) (c : Call) (e : Err) (h : (opStep t c).2 = some e)
+    (hx : (∃ a, c.op = .one a) ∨ ∀ n, e ≠ .permCreate n) : (opStep t c).1 = t := by
+  rcases (C43_rejected t c e h).2 with h1 | ⟨hd, tl, p, s, pre, n, post, ho, -, -, -, -, -, -, -, -, he, -⟩
+  · exact h1
+  · rcases hx with ⟨a, ha⟩ | hne
+    · rw [ho] at ha; cases ha
+    · exact absurd he (hne n)
+
+/-- The all-or-nothing variant raises the same errors as `opStep`, never changes the table when it
+    rejects a call, and differs from `opStep` only in the ISO-undefined event. -/
+theorem C43_atomic_variant (t : Table) (c : Call) :
+    (opStepAtomic t c).2 = (opStep t c).2 ∧
+    (∀ e, (opStepAtomic t c).2 = some e → (opStepAtomic t c).1 = t) ∧
+    ((opStepAtomic t c).1 = (opStep t c).1 ∨
+      ∃ e, (opStep t c).2 = some e ∧ PrefixMade t c e (opStep t c).1) := by
+  have hat : ∀ e, (opStepAtomic t c).2 = some e → (opStepAtomic t c).1 = t := by
+    intro e he
+    rcases opStepAtomic_spec t c with ⟨e', hr, _⟩ | ⟨p, s, ns, _, hr⟩
+    · rw [hr]
+    · rw [hr] at he; cases he
+  rcases opStep_lax t c with h | ⟨e, he, ha, hpm⟩
+  · exact ⟨by rw [h], hat, .inl (by rw [h])⟩
+  · exact ⟨by rw [ha, he], hat, .inr ⟨e, he, hpm⟩⟩
 
 /-- A call is accepted exactly when none of the ISO error conditions holds. -/
 theorem C43_accepted_iff (t : Table) (c : Call) :
     (opStep t c).2 = none ↔ ∀ e, ¬ IsoErr t c e := by
   constructor
   · intro h e
-    rcases opStep_spec t c with ⟨e', hr, _⟩ | ⟨p, s, ns, ha, _⟩
+    rcases opStep_spec t c with (⟨e', hr, _⟩ | ⟨p, s, ns, ha, _⟩) | ⟨e', he, _, _⟩
     · rw [hr] at h; cases h
     · exact accepted_no_isoErr ha e
+    · rw [he] at h; cases h
   · intro h
     cases hr : (opStep t c).2 with
     | none => rfl
-    | some e => exact absurd (C43_rejected t c e hr).2 (h e)
+    | some e => exact absurd (C43_rejected t c e hr).1 (h e)
 
 /-- An accepted call `op(p, s, Names)` changes exactly the cells `(n, class of s)` for `n ∈ Names`:
     they become `(p, s)`, or disappear when `p = 0`; every other cell is as before. -/
@@ -39,12 +78,13 @@ theorem C43_accepted_effect (t : Table) (c : Call) (h : (opStep t c).2 = none) :
     ∃ p s ns, checkPriority c.prio = .ok p ∧ checkSpec c.spec = .ok s ∧ opNames c.op = some ns ∧
       ∀ m cl, lookup (opStep t c).1 m cl =
         if m ∈ ns ∧ cl = s.cls then (if p = 0 then none else some (p, s)) else lookup t m cl := by
-  rcases opStep_spec t c with ⟨e', hr, _⟩ | ⟨p, s, ns, ha, hr⟩
+  rcases opStep_spec t c with (⟨e', hr, _⟩ | ⟨p, s, ns, ha, hr⟩) | ⟨e', he, _, _⟩
   · rw [hr] at h; cases h
   · refine ⟨p, s, ns, ha.prio, ha.spec, ha.names, ?_⟩
     intro m cl
     rw [hr]
     exact lookup_setAll t p s ns m cl
+  · rw [he] at h; cases h
 
 /-- Priority 0 removes exactly the `(name, class)` cells named by the call. -/
 theorem C43_priority_zero_removes (t : Table) (c : Call) (h : (opStep t c).2 = none)
@@ -63,18 +103,21 @@ theorem C43_priority_zero_removes (t : Table) (c : Call) (h : (opStep t c).2 = n
 theorem C43_protected_names (t : Table) (c : Call) (n : String)
     (hn : n = "," ∨ n = "[]" ∨ n = "{}") (cl : Cls) :
     lookup (opStep t c).1 n cl = lookup t n cl := by
-  rcases opStep_spec t c with ⟨e', hr, _⟩ | ⟨p, s, ns, ha, hr⟩
+  have hv : validOp n ≠ none := by rcases hn with rfl | rfl | rfl <;> decide
+  rcases opStep_spec t c with (⟨e', hr, _⟩ | ⟨p, s, ns, ha, hr⟩) | ⟨e', _, _, hpm⟩
   · rw [hr]
   · rw [hr]
-    apply accepted_protected ha
-    rcases hn with rfl | rfl | rfl <;> decide
+    exact accepted_protected ha hv cl
+  · exact prefixMade_protected hpm hv cl
 
-/-- One call preserves the invariants: unique keys, no name both infix and postfix, priorities in
-    1..1200 under the right class, `[]`/`{}` not operators, `'|'` at most infix with priority ≥ 1001. -/
+/-- One call — accepted, rejected, or rejected half-way through a list — preserves the invariants:
+    unique keys, no name both infix and postfix, priorities in 1..1200 under the right class,
+    `[]`/`{}` not operators, `'|'` at most infix with priority ≥ 1001. -/
 theorem C43_invariant_step (t : Table) (c : Call) (h : Inv t) : Inv (opStep t c).1 := by
-  rcases opStep_spec t c with ⟨e', hr, _⟩ | ⟨p, s, ns, ha, hr⟩
+  rcases opStep_spec t c with (⟨e', hr, _⟩ | ⟨p, s, ns, ha, hr⟩) | ⟨e', _, _, hpm⟩
   · rw [hr]; exact h
   · rw [hr]; exact accepted_inv ha h
+  · exact prefixMade_inv hpm h
 
 theorem runOps_cons (t : Table) (c : Call) (cs : List Call) :
     runOps t (c :: cs) = runOps (opStep t c).1 cs := rfl
@@ -107,16 +150,16 @@ theorem C43_current_op_enumerates (cs : List Call) (p : Nat) (s : Spec) (n : Str
   mem_currentOp_iff_lookup (C43_invariant_history cs).wf p s n
 
 /-- `current_op/3` with any subset of its arguments instantiated (the three branches of
-    `get_next_op_db_ref`, the bound-priority branch repaired as in finding C43-3) yields exactly
+    `get_next_op_db_ref`, the bound-priority branch repaired as in finding C43-2) yields exactly
     the matching rows of the full enumeration. -/
 theorem C43_current_op_modes (t : Table) (h : wf t) (q : Pat) (x : Nat × Spec × String) :
     x ∈ currentOpQ true t q ↔ x ∈ currentOp t ∧ q.matches x = true :=
   mem_currentOpQ h q x
 
 /-- `op/3` as written today computes the ISO step except on the inputs described by `Deviates`
-    (list form with `'|'` outside its restriction, or with an infix/postfix clash). -/
+    (list form with `'|'` among the elements outside the `'|'` restriction). -/
 theorem C43_code_as_written (t : Table) (c : Call) :
-    opStepImpl asIs t c = opStep t c ∨ Deviates t c :=
+    opStepImpl asIs t c = opStep t c ∨ Deviates c :=
   impl_eq_iso_or_deviates t c
 
 /-! ## Non-vacuity and witnesses -/
@@ -163,16 +206,23 @@ example : lookup (opStepImpl asIs defaultTable (mk 200 "xfy" ["|"])).1 "|" .inf 
   decide
 -- … the ISO step rejects it
 example : opStep defaultTable (mk 200 "xfy" ["|"]) = (defaultTable, some (.permCreate "|")) := by decide
--- finding C43-2: op(200, xf, [foo, +]) is rejected by the code as written after foo was added
-example : (opStepImpl asIs defaultTable (mk 200 "xf" ["foo", "+"])).2 = some (.permCreate "+") := by decide
-example : lookup (opStepImpl asIs defaultTable (mk 200 "xf" ["foo", "+"])).1 "foo" .post =
-    some (200, .xf) := by decide
-example : opStep defaultTable (mk 200 "xf" ["foo", "+"]) = (defaultTable, some (.permCreate "+")) := by
-  decide
--- both are instances of `Deviates`, so `C43_code_as_written` is not vacuous in either direction
+-- it is an instance of `Deviates`; elsewhere the code as written is the ISO step
+example : Deviates (mk 200 "xfy" ["|"]) :=
+  ⟨.atom "|", [], .atom "[]", ["|"], 200, .xfy, rfl, rfl, rfl, rfl, by decide, by decide⟩
 example : opStepImpl asIs defaultTable (one 200 "xf" "foo") = opStep defaultTable (one 200 "xf" "foo") := by
   decide
--- finding C43-3: with the priority bound and the specifier unbound the code finds nothing
+-- the ISO-undefined event (not a finding): op(200, xf, [foo, +]) is rejected for + after foo was added …
+example : (opStep defaultTable (mk 200 "xf" ["foo", "+"])).2 = some (.permCreate "+") := by decide
+example : lookup (opStep defaultTable (mk 200 "xf" ["foo", "+"])).1 "foo" .post = some (200, .xf) := by
+  decide
+example : PrefixMade defaultTable (mk 200 "xf" ["foo", "+"]) (.permCreate "+")
+    (opStep defaultTable (mk 200 "xf" ["foo", "+"])).1 :=
+  ⟨.atom "foo", [.atom "+"], 200, .xf, ["foo"], "+", [], rfl, rfl, by decide, rfl, by decide,
+    rfl, by decide, by decide, by decide, rfl, by decide⟩
+-- … the all-or-nothing variant raises the same error and adds nothing
+example : opStepAtomic defaultTable (mk 200 "xf" ["foo", "+"]) = (defaultTable, some (.permCreate "+")) := by
+  decide
+-- finding C43-2: with the priority bound and the specifier unbound the code finds nothing
 example : currentOpQ false defaultTable ⟨some 500, none, some "+"⟩ = [] := by decide
 example : currentOpQ true defaultTable ⟨some 500, none, some "+"⟩ = [(500, .yfx, "+")] := by decide
 
